@@ -127,6 +127,38 @@ def run_case(rng, tier, case):
                     case.check('json.same_problem_after_load', False, **who, pair=tag, error='%s: %s' % (type(e).__name__, str(e)[:160])); continue
                 d = problem_diff(sl, sf, rtol=0., compare_mapping=True)
                 case.check('json.same_problem_after_load', d is None, **who, pair=tag, diff=d)
+        # the documented one-call routes built on the JSON form: run_from_json (load + set_timegrid + optimise + extract) and
+        # set_param / get_param (object -> JSON tree -> object); judged against the freshly built portfolio
+        if rng.random() < (0.5 if tier == 'quick' else 0.7) and not case.violations:
+            import eaopack.io as eio
+            prg = {k: np.asarray(v, float) for k, v in spec['prices'].items()}
+            try:
+                s_port = ser.to_json(b.portfolio)
+                opf = fresh.portfolio.setup_optim_problem(dict(prg), build_timegrid(g))
+                rf = opf.optimize()
+                vf = None if isinstance(rf, str) else float(rf.value)
+            except Exception as e:
+                s_port = None; case.event('direct_run_rejected')
+            if s_port is not None:
+                try:
+                    out = ser.run_from_json(json_str=s_port, prices=dict(prg), timegrid=None if own_grid else build_timegrid(g))
+                    vl = None if not isinstance(out, dict) else float(np.asarray(out['summary'].loc['value']).ravel()[0])
+                    ok = (vf is None) == (vl is None) and (vf is None or abs(vf - vl) <= 2e-4 * (1 + abs(vf)))
+                    case.check('json.run_from_json_equals_direct', ok, direct=vf, from_json=vl, own_grid=own_grid)
+                except Exception as e:
+                    case.check('json.run_from_json_equals_direct', False, error='%s: %s' % (type(e).__name__, str(e)[:160]), own_grid=own_grid)
+                try:
+                    keys, tree = eio.get_params_tree(b.portfolio)
+                    paths = [k for k in keys if isinstance(k, list) and len(k) >= 3 and k[0] == 'assets']
+                    if paths:
+                        path = paths[int(rng.integers(len(paths)))]
+                        val = eio.get_param(b.portfolio, path)
+                        o3 = eio.set_param(b.portfolio, path, val)
+                        sl = problems(o3, spec, g, spec['prices']); sf = Snap(opf)
+                        d = problem_diff(sl, sf, rtol=0., compare_mapping=True)
+                        case.check('json.set_param_identity_same_problem', d is None, path=str(path)[:80], diff=d)
+                except Exception as e:
+                    case.check('json.set_param_identity_same_problem', False, error='%s: %s' % (type(e).__name__, str(e)[:160]))
     case.nontrivial = len(spec['assets']) >= 3
 
 
